@@ -20,6 +20,17 @@ CHECKS = {
         note='proved: per-axis kernels (Spec and Gen). Not a theorem yet: the N-d segment-tree composition (checked against numpy on '
              'random trees each run), JPEG/HDF5 segments. ' + TB,
         technique='Lean 4 proof (induction/arith over Int) + py->Lean translator bridge + numpy-oracle differential'),
+    'C07': dict(
+        text='Lean 4 history theorems over a scatter model of writes: chunks on pairwise distinct raw positions commute, any permutation of '
+             'a partition equals one whole-image write, every written sample is read back at its position, untouched positions keep their '
+             'content, and the sample counter reports fully-written exactly when every position has been written (with the stated limit: a '
+             'repeated chunk is not detected). The chunk -> raw position arithmetic is the C01 kernel set (proved and bridged to the '
+             'regenerated Python). The hypothesis that each real write is such a scatter is validated by observing every write on random '
+             'writable segment trees and replaying the observed history in the Lean model.',
+        design='DESIGN.md 3.2, 6/C07',
+        note='proved: history/accounting theorems (unbounded in chunk count, order, store size) and per-axis kernels. Tied by correspondence: '
+             'observed assignment histories vs the scatter model; numpy provenance oracle for the N-d routing. ' + TB,
+        technique='Lean 4 proof (List.Perm.foldl_eq, induction) + translator bridge for kernels + observed-history correspondence'),
 }
 
 
